@@ -17,7 +17,8 @@ theorem c20_close (cfg : SrvCfg) (env : InitEnv) (st : RState) (line : String) (
     (kvs : List (Val × Val)) (hc : st.closeExpected = true)
     (hp : parseRequest line = some ("0", "CLOSE", toks)) (hm : readMap toks 0 = .ok kvs) :
     dispatch cfg env st line = ({ st with closed := true }, [.quit, .poolShutdown, .sockClose]) := by
-  sorry
+  unfold dispatch classify
+  simp only [hp, hc, hm, and_self, if_true, ne_eq, not_true_eq_false, if_false, act]
 
 /-- **C20 (older agreed version: the line is ignored).** After an initialization that agreed a version without
     close packets, a CLOSE line is an unknown request: logged and dropped, state unchanged. -/
@@ -25,7 +26,10 @@ theorem c20_ignored (cfg : SrvCfg) (env : InitEnv) (st : RState) (line id : Stri
     (hc : st.closeExpected = false) (hi : st.initExpected = false)
     (hp : parseRequest line = some (id, "CLOSE", toks)) :
     dispatch cfg env st line = (st, [.discard]) := by
-  sorry
+  have hk : "CLOSE" ≠ cfg.kind.method := by cases cfg.kind <;> decide
+  unfold dispatch classify
+  simp only [hp, hc, Bool.false_eq_true, and_false, if_false, hk]
+  cases cfg.kind <;> simp [act, hi, metaMethods]
 
 /-- **C20 (close request with another id).** A protocol error: exception handling only, the server keeps
     running. -/
@@ -33,7 +37,8 @@ theorem c20_bad_id (cfg : SrvCfg) (env : InitEnv) (st : RState) (line id : Strin
     (hc : st.closeExpected = true) (hid : id ≠ "0")
     (hp : parseRequest line = some (id, "CLOSE", toks)) :
     dispatch cfg env st line = (st, onException cfg) := by
-  sorry
+  unfold dispatch classify
+  simp only [hp, hc, and_self, if_true, ne_eq, hid, not_false_eq_true, act]
 
 /-- **C20 (I/O failure).** The failure is reported to the application's handler exactly once iff one is
     installed, and the default reaction (process exit) happens iff no handler is installed or it returns a
@@ -46,16 +51,41 @@ theorem c20_io_failure (cfg : SrvCfg) :
        | some false => [.handlerIo]) ∧
     writerFault cfg = onIoException cfg ∧
     (∀ st, st.closed = false → readerFault cfg st = onIoException cfg) := by
-  sorry
+  refine ⟨?_, rfl, ?_⟩
+  · unfold onIoException
+    cases cfg.ioHandler with
+    | none => rfl
+    | some r => cases r <;> rfl
+  · intro st h
+    simp [readerFault, h]
 
 /-- **C20 (a read failure caused by the server's own close() is not reported).** -/
 theorem c20_read_after_close (cfg : SrvCfg) (st : RState) (h : st.closed = true) : readerFault cfg st = [] := by
-  sorry
+  simp [readerFault, h]
 
 /-- once closed, always closed; and only an honoured, well-formed close request closes. -/
 theorem c20_closed_only_by_close (cfg : SrvCfg) (env : InitEnv) (st : RState) (line : String)
     (h : (dispatch cfg env st line).1.closed = true) :
     st.closed = true ∨ classify cfg st.closeExpected line = .closeOk := by
-  sorry
+  unfold dispatch at h
+  generalize classify cfg st.closeExpected line = c at h ⊢
+  cases c with
+  | closeOk => exact Or.inr rfl
+  | garbage => exact Or.inl (by simpa [act] using h)
+  | closeBad => exact Or.inl (by simpa [act] using h)
+  | ownBad => exact Or.inl (by simpa [act] using h)
+  | unknown =>
+    simp only [act] at h
+    split at h <;> exact Or.inl h
+  | own m id toks item =>
+    simp only [act] at h
+    split at h
+    · exact Or.inl h
+    · cases item <;> exact Or.inl h
+  | initReq id prs =>
+    simp only [act] at h
+    split at h
+    · exact Or.inl h
+    · cases prs <;> exact Or.inl h
 
 end Ari
